@@ -209,7 +209,11 @@ theorem micro_nf {fl cfg s p s' p'} (hs : (s', p') ∈ micro fl cfg s p) : NF p'
       simp only [microDet] at hs
       split at hs
       · cases hs
-      · exact recvStep_nf hs
+      · split at hs
+        · rename_i hr; cases hs; exact recvStep_nf hr
+        · split at hs
+          · cases hs; nf
+          · cases hs
     | rvSend t v =>
       simp only [microDet] at hs
       split at hs
@@ -253,11 +257,18 @@ theorem micro_nf {fl cfg s p s' p'} (hs : (s', p') ∈ micro fl cfg s p) : NF p'
           · simp at hs
         | _ => simp [microSpur] at hs
       | bsend t f h sent rest q =>
-        simp only [microSpur] at hs
-        split at hs
-        · rw [Option.mem_toList] at hs
-          exact sendStep_nf hs
-        · simp at hs
+        simp only [microSpur, mem_append] at hs
+        rcases hs with hs | hs
+        · split at hs
+          · rw [Option.mem_toList] at hs
+            exact sendStep_nf hs
+          · simp at hs
+        · split at hs
+          · simp only [mem_singleton] at hs
+            have e2 : p' = (failSend fl s f .closed sent rest).2 := by rw [← hs]
+            subst e2
+            exact failSend_nf _ _ _ _ _ _
+          · simp at hs
       | brecv t f h n got =>
         simp only [microSpur, mem_append] at hs
         rcases hs with hs | hs
